@@ -18,7 +18,26 @@ var overLimitKinds = []string{"spans_with_attrs", "spans_with_events", "spans_wi
 
 const overN = 65537
 
-func overLimitBatch(kind string) *batchIn {
+// boundaryBatch is the largest batch inside the round-trip domain: exactly
+// 65,535 id-bearing parents of one table.
+func boundaryBatch(signal string) *batchIn {
+	var b *batchIn
+	switch signal {
+	case "traces":
+		b = bigBatch("spans_with_attrs", 65535)
+	case "logs":
+		b = bigBatch("logs_with_attrs", 65535)
+	default:
+		b = bigBatch("metrics", 65535)
+	}
+	b.kind = "boundary65535"
+	b.items = 65535
+	return b
+}
+
+func overLimitBatch(kind string) *batchIn { return bigBatch(kind, overN) }
+
+func bigBatch(kind string, overN int) *batchIn {
 	b := &batchIn{kind: "overlimit:" + kind, items: overN}
 	switch kind {
 	case "spans_with_attrs":
